@@ -33,10 +33,10 @@ var budgets = map[string]map[string]tierCfg{
 	"C03": {"quick": {Runs: 280000, CapS: 90, DetSeeds: 32, ShrinkS: 20}, "thorough": {Runs: 6000000, CapS: 1200, DetSeeds: 512, ShrinkS: 60}},
 	"C04": {"quick": {Runs: 300000, CapS: 90, DetSeeds: 32, ShrinkS: 20}, "thorough": {Runs: 6000000, CapS: 1200, DetSeeds: 512, ShrinkS: 60}},
 	"C05": {"quick": {Runs: 700000, CapS: 90, DetSeeds: 32, ShrinkS: 20}, "thorough": {Runs: 12000000, CapS: 1200, DetSeeds: 512, ShrinkS: 60}},
-	"C06": {"quick": {Runs: 70000, CapS: 90, DetSeeds: 32, ShrinkS: 20}, "thorough": {Runs: 1500000, CapS: 1200, DetSeeds: 512, ShrinkS: 60}},
+	"C06": {"quick": {Runs: 140000, CapS: 90, DetSeeds: 32, ShrinkS: 20}, "thorough": {Runs: 1500000, CapS: 1200, DetSeeds: 512, ShrinkS: 60}},
 	"C07": {"quick": {Runs: 50000, CapS: 90, DetSeeds: 32, ShrinkS: 20, RaceRuns: 8000}, "thorough": {Runs: 700000, CapS: 1200, DetSeeds: 512, ShrinkS: 60, RaceRuns: 100000}},
 	"C08": {"quick": {Runs: 50000, CapS: 90, DetSeeds: 32, ShrinkS: 20, RaceRuns: 8000}, "thorough": {Runs: 1500000, CapS: 1200, DetSeeds: 512, ShrinkS: 60, RaceRuns: 200000}},
-	"C10": {"quick": {Runs: 150000, CapS: 90, DetSeeds: 32, ShrinkS: 20}, "thorough": {Runs: 3000000, CapS: 1200, DetSeeds: 512, ShrinkS: 60}},
+	"C10": {"quick": {Runs: 130000, CapS: 90, DetSeeds: 32, ShrinkS: 20}, "thorough": {Runs: 3000000, CapS: 1200, DetSeeds: 512, ShrinkS: 60}},
 	"C11": {"quick": {Runs: 500000, CapS: 90, DetSeeds: 32, ShrinkS: 20}, "thorough": {Runs: 8000000, CapS: 1200, DetSeeds: 512, ShrinkS: 60}},
 	"C12": {"quick": {Runs: 600000, CapS: 90, DetSeeds: 32, ShrinkS: 20}, "thorough": {Runs: 12000000, CapS: 1200, DetSeeds: 512, ShrinkS: 60}},
 }
